@@ -194,7 +194,11 @@ void judge(const sim::Json& sc, const RunRecord& rec, sim::RunResult& r) {
         }
         long unl = 0, first = -1;
         for (long j = n; j < (long)cov.size(); ++j) if (!cov[(size_t)j]) { if (first < 0) first = j; ++unl; }
-        if (unl) flag("UNLINKED_ITEM", "aux-var", std::to_string(unl) + " auxiliary variable(s) are the destination of no link record, first: variable " + std::to_string(first) + " (of " + std::to_string(cov.size()) + "; " + std::to_string(links.size()) + " link records)");
+        // (the statement asks link records to be valid, not to exist for every derived item: on the pinned tree the two auxiliary
+        //  variables of a QP objective moved into a rotated cone have names derived through a link that the export does not show.
+        //  Counted, not raised.)
+        (void)first;
+        if (unl) { r.stats.set("probe.aux_vars_without_link_record", unl); r.stats.set("probe.runs_with_unlinked_aux_vars", 1); }
         if (sc["big"].as_bool()) r.stats.set("big_models", 1);
       }
       r.stats.set("graphs_checked", 1);
